@@ -116,8 +116,8 @@ def parseTy (s : String) : Option Ty :=
   | "ArrayKey" => some .arrayKey
   | "PassKey" => some .passKey
   | "Entry" => some .entry
-  | "Options" => some (.options (arg == "query"))
-  | "PostgresStoreOptions" => some (.pgOptions (arg == "query"))
+  | "Options" => some (.options (arg.startsWith "query"))
+  | "PostgresStoreOptions" => some (.pgOptions (arg.startsWith "query"))
   | "Argon2" => some .argon2
   | "BlsKeyGen" => some .blsKeyGen
   | "RandomDet" => some .randomDet
@@ -170,7 +170,7 @@ def runLog (j : Json) : Json :=
     let entry := ew.headD ""
     let which := (ew.drop 1).headD "postgres"
     -- nothing connects; removing a SQLite file that does not exist is `Ok(false)`
-    let ok := entry == "remove" && which == "sqlite"
+    let ok := entry == "remove" && which.startsWith "sqlite"
     Json.mkObj [("leak", .bool (s.leaks FmtCfg.current)), ("steps", stepsJson [(entry ++ "-" ++ which, ok)])]
   | _ => jerr "unknown scenario"
 
